@@ -64,7 +64,7 @@ fn permutations(n: usize) -> Vec<Vec<usize>> {
 fn is_optional(u: &Update) -> bool {
     matches!(
         u,
-        Update::Sequence | Update::TapKeySig | Update::FinalScriptSig | Update::FinalScriptWitness | Update::RedeemScript | Update::WitnessScript | Update::SighashType | Update::InputExplicitAmount | Update::OutputExplicitProofs | Update::TapInternalKey
+        Update::Sequence | Update::TapKeySig | Update::FinalScriptSig | Update::FinalScriptWitness | Update::RedeemScript | Update::WitnessScript | Update::SighashType | Update::InputExplicitAmount | Update::OutputExplicitProofs | Update::TapInternalKey | Update::OutputScripts | Update::OutputTapInternalKey
     )
 }
 
@@ -106,6 +106,7 @@ fn path_of(v: &[u32]) -> DerivationPath {
 }
 
 pub fn run(ctx: &mut Ctx) {
+    ctx.seen("exhaustive_subspaces", "C14: all k! merge orders x both groupings per family (k <= 4); all 7 xpub key-source pair classes x both directions");
     let n = ctx.budget(6_000, 250_000);
     ctx.phase("families", n, |ctx, k| {
         let mut anc = extractable_pset(&mut ctx.rng, if k % 2 == 0 { P(1, 6) } else { P(1, 2) });
@@ -131,7 +132,7 @@ pub fn run(ctx: &mut Ctx) {
             let ii = if anc.n_inputs() > 0 { ctx.rng.gen_range(0..anc.n_inputs()) } else { 0 };
             let oi = if anc.n_outputs() > 0 { ctx.rng.gen_range(0..anc.n_outputs()) } else { 0 };
             if is_optional(&u) {
-                let target = if matches!(u, Update::OutputExplicitProofs) { oi } else { ii };
+                let target = if matches!(u, Update::OutputExplicitProofs | Update::OutputScripts | Update::OutputTapInternalKey) { oi } else { ii };
                 if !taken.insert((u.clone(), target)) {
                     continue;
                 }
@@ -202,7 +203,8 @@ pub fn run(ctx: &mut Ctx) {
                 if *m != *first || serialize(m) != b0 {
                     // which map class differs
                     let (ra, rb) = (raw_of(first), raw_of(m));
-                    let mut cls = "unknown".to_string();
+                    // same pairs in another order (e.g. the scalar list) unless a differing pair is found
+                    let mut cls = "same-pairs-in-different-order".to_string();
                     'outer: for mi in 0..ra.maps.len().min(rb.maps.len()) {
                         for (kk, v) in &ra.maps[mi] {
                             if !rb.maps[mi].iter().any(|(k2, v2)| k2 == kk && v2 == v) {
